@@ -16,6 +16,8 @@ pub struct Check {
     pub thorough: usize,
     /// post-processing of generated cases (shape constraints of the profile)
     pub fixup: fn(&mut Case),
+    /// a scenario-shaped generator used instead of the profile's free-form one
+    pub template: Option<fn() -> proptest::strategy::BoxedStrategy<Case>>,
 }
 
 fn nofix(_: &mut Case) {}
@@ -40,6 +42,7 @@ pub fn e1_check(id: &str) -> Option<Check> {
                 quick: 60_000,
                 thorough: 3_000_000,
                 fixup: nofix,
+                template: None,
             }
         }
         "C02" => {
@@ -60,6 +63,7 @@ pub fn e1_check(id: &str) -> Option<Check> {
                 quick: 60_000,
                 thorough: 3_000_000,
                 fixup: nofix,
+                template: None,
             }
         }
         "C03" => {
@@ -84,6 +88,7 @@ pub fn e1_check(id: &str) -> Option<Check> {
                 quick: 100_000,
                 thorough: 3_000_000,
                 fixup: nofix,
+                template: None,
             }
         }
         "C04" => {
@@ -106,6 +111,7 @@ pub fn e1_check(id: &str) -> Option<Check> {
                 quick: 100_000,
                 thorough: 2_000_000,
                 fixup: nofix,
+                template: None,
             }
         }
         "C05" => {
@@ -130,6 +136,7 @@ pub fn e1_check(id: &str) -> Option<Check> {
                 quick: 100_000,
                 thorough: 2_000_000,
                 fixup: nofix,
+                template: None,
             }
         }
         "C06" => {
@@ -153,6 +160,7 @@ pub fn e1_check(id: &str) -> Option<Check> {
                 quick: 100_000,
                 thorough: 2_000_000,
                 fixup: nofix,
+                template: None,
             }
         }
         "C07" => {
@@ -173,6 +181,7 @@ pub fn e1_check(id: &str) -> Option<Check> {
                 quick: 60_000,
                 thorough: 3_000_000,
                 fixup: nofix,
+                template: None,
             }
         }
         "C08" => {
@@ -221,6 +230,7 @@ pub fn e1_check(id: &str) -> Option<Check> {
                         c.spec.policy = crate::rt::Policy::Rand { p: 64 };
                     }
                 },
+                template: None,
             }
         }
         "C09" => {
@@ -240,6 +250,7 @@ pub fn e1_check(id: &str) -> Option<Check> {
                 quick: 40_000,
                 thorough: 2_000_000,
                 fixup: nofix,
+                template: None,
             }
         }
         "C10" => {
@@ -263,6 +274,7 @@ pub fn e1_check(id: &str) -> Option<Check> {
                 quick: 50_000,
                 thorough: 2_000_000,
                 fixup: nofix,
+                template: None,
             }
         }
         "C11" => {
@@ -298,6 +310,7 @@ pub fn e1_check(id: &str) -> Option<Check> {
                         }
                     }
                 },
+                template: None,
             }
         }
         "C12" => {
@@ -311,15 +324,17 @@ pub fn e1_check(id: &str) -> Option<Check> {
             p.nofast = 60;
             p.w_hold = 2;
             p.w_aba = 1;
+            p.types = 50;
             Check {
                 id: "C12",
                 profile: p,
-                deciding: &["O-lin", "O-chain", "O-acct"],
-                rule: "2-3 containers, one value stored in several containers / twice in one, readers forced onto the fallback (60% fallback-only strategy) while writers to other containers walk their node. Oracle: per-container linearizability with provenance (a value returned from X was stored in X), exact accounting. Non-trivial: a writer to X examined a node whose owner had a read intent for another container, or one value was stored in two containers.",
+                deciding: &["O-lin", "O-chain", "O-acct", "O-type"],
+                rule: "2-3 containers, one value stored in several containers / twice in one, readers forced onto the fallback (60% fallback-only strategy) while writers to other containers walk their node; in half of the cases the containers are of two (simulated) pointee types and no value of one type is ever offered to a container of the other. Oracle: per-container linearizability with provenance (a value returned from X was stored in X), exact accounting, no reference count of a value of one pointee type touched by an operation on a container of another type. Non-trivial: a writer to X examined a node whose owner had a read intent for another container, or one value was stored in two containers.",
                 nontrivial: |_, o| o.stats.help_other_cont > 0 || o.hs.shared_value_conts > 0 || o.stats.foreign_pay_unconfirmed > 0,
                 quick: 100_000,
                 thorough: 2_000_000,
                 fixup: nofix,
+                template: None,
             }
         }
         "C13" => {
@@ -337,6 +352,21 @@ pub fn e1_check(id: &str) -> Option<Check> {
                 quick: 30_000,
                 thorough: 1_000_000,
                 fixup: nofix,
+                template: None,
+            }
+        }
+        "C13nest" => {
+            p.name = "nested-wrap";
+            Check {
+                id: "C13",
+                profile: p,
+                deciding: &["O-total", "O-lin", "O-chain", "O-acct", "O-slots", "O-nodes", "O-uaf", "O-guard"],
+                rule: "second part of C13 (scenario-shaped generator, see prog::nestwrap_strategy): the generation counter of a writer thread wraps inside a nested load (the writer loads on behalf of the readers it helps) while another writer has been parked, since the first transaction on that thread's node, right before the compare-exchange that hands its replacement over; 2-3 readers of the second container inside helping transactions; operation kinds, counts, the parking point and the release point are random. Oracle: as C13 plus provenance (a load of container 1 never returns a value of container 0). Non-trivial: the counter wrapped inside a nested load and the stalled writer was released afterwards.",
+                nontrivial: |_, o| o.stats.gen_wrapped > 0 && o.stats.stall_woken > 0,
+                quick: 60_000,
+                thorough: 2_000_000,
+                fixup: nofix,
+                template: Some(crate::prog::nestwrap_strategy),
             }
         }
         "C16" => {
@@ -356,6 +386,7 @@ pub fn e1_check(id: &str) -> Option<Check> {
                 quick: 40_000,
                 thorough: 1_500_000,
                 fixup: nofix,
+                template: None,
             }
         }
         "C17" => {
@@ -372,6 +403,7 @@ pub fn e1_check(id: &str) -> Option<Check> {
                 quick: 20_000,
                 thorough: 500_000,
                 fixup: nofix,
+                template: None,
             }
         }
         "C18" => {
@@ -392,6 +424,7 @@ pub fn e1_check(id: &str) -> Option<Check> {
                 quick: 120_000,
                 thorough: 1_500_000,
                 fixup: nofix,
+                template: None,
             }
         }
         // exploratory profile (not registered in MANIFEST): operations from thread-local
@@ -433,6 +466,7 @@ pub fn e1_check(id: &str) -> Option<Check> {
                         }
                     }
                 },
+                template: None,
             }
         }
         // exploratory (not registered): the destructor-storm profile under the weak memory model
